@@ -197,3 +197,58 @@ def inline_new_helpers(project, ref) -> int:
             ast.fix_missing_locations(m.tree)
     project.inlined_keys = set(helpers)   # these functions no longer have call sites: rules that look at "who calls / who is never called" skip them
     return done
+
+
+def inline_new_closures(project, ref) -> int:
+    """N11 for local helpers: a nested `def h(a, ..): return <expr>` that is not in the reference snapshot, defined as a plain statement of the enclosing
+    function's body and used there only by being called with plain names / constants, is replaced by its expression at every call (a closure reads the
+    enclosing variables at call time, which is exactly what the substituted expression does), and the definition is removed."""
+    done = 0
+    for m in project.modules.values():
+        r = ref.get(m.relpath)
+        if r is None:
+            continue
+        for g in list(m.all_funcs):
+            f = g.parent
+            if f is None or g.qualname in r or g.node not in f.node.body or g.node.decorator_list or g.vararg or g.kwarg or g.kwonly:
+                continue
+            if _single_exit(g) != "expr":
+                continue
+            a = g.node.args
+            if a.defaults or a.kw_defaults:
+                continue
+            expr = [s_ for s_ in g.node.body if isinstance(s_, ast.Return)][0].value
+            if any(isinstance(n, ast.Name) and isinstance(n.ctx, ast.Store) for n in ast.walk(expr)):
+                continue
+            uses = [n for n in ast.walk(f.node) if isinstance(n, ast.Name) and n.id == g.name and not any(n is x for x in ast.walk(g.node))]
+            calls = [n for n in ast.walk(f.node) if isinstance(n, ast.Call) and isinstance(n.func, ast.Name) and n.func.id == g.name and not any(n is x for x in ast.walk(g.node))]
+            ok = len(uses) == len(calls) and bool(calls)
+            binds = {}
+            for c in calls:
+                if c.keywords and any(k.arg is None for k in c.keywords) or any(isinstance(x, ast.Starred) for x in c.args) or len(c.args) > len(g.params):
+                    ok = False
+                    break
+                b = dict(zip(g.params, c.args))
+                for k in c.keywords:
+                    if k.arg in b or k.arg not in g.params:
+                        ok = False
+                    b[k.arg] = k.value
+                if set(b) != set(g.params) or not all(isinstance(v, (ast.Name, ast.Constant)) for v in b.values()):
+                    ok = False
+                binds[id(c)] = b
+            if not ok:
+                continue
+
+            class R(ast.NodeTransformer):
+                def visit_Call(s2, n):
+                    s2.generic_visit(n)
+                    if id(n) in binds:
+                        return ast.copy_location(_Subst(binds[id(n)]).visit(copy.deepcopy(expr)), n)
+                    return n
+            f.node.body = [R().visit(st) for st in f.node.body if st is not g.node]
+            m.all_funcs.remove(g)
+            project._func_by_node.pop(id(g.node), None)
+            done += 1
+        if done:
+            ast.fix_missing_locations(m.tree)
+    return done
